@@ -107,6 +107,7 @@ def gen_cases(tier, seed):
     # that are VIEWS of a non-leaf tensor while a loss consumes the base or another view of it (the default sets then overlap)
     cases.append(dict(items=[], special="foreign-nodes", seed=seed))
     cases.append(dict(items=[], special="view-features", seed=seed))
+    cases.append(dict(items=[], special="odd-leaves", seed=seed))
     return cases
 
 
@@ -203,6 +204,57 @@ def _run_special(case):
                 if not same(ga, gb):
                     viol.append(dict(sig=f"default-vs-explicit-grads:foreign-node:{ep}", cls=f"foreign:{variant}:{ep}",
                                      msg=f"graph with a {variant} node, {ep}: defaulted call leaves .grad {[None if g is None else g.tolist() for g in ga]}, "
+                                         f"the call with the explicit leaves {[None if g is None else g.tolist() for g in gb]}"[:900]))
+        return dict(viol=viol, execs=execs, outcomes=sorted(outcomes), nontrivial=len(outcomes))
+
+    if case["special"] == "odd-leaves":
+        # (a) a Python Function whose context keeps an attribute called `variable` holding a leaf that is NOT an input of the node:
+        # only AccumulateGrad nodes designate leaves; (b) complex leaves (they require grad like any floating point tensor)
+        class _ScaleByHeld(torch.autograd.Function):
+            @staticmethod
+            def forward(ctx, x, holder):
+                ctx.variable = holder["t"]
+                return x * holder["t"].detach()
+
+            @staticmethod
+            def backward(ctx, g):
+                return g * ctx.variable.detach(), None
+
+        def build(kind):
+            if kind == "ctx-variable":
+                x, held, p = T([1.0, 2.0]), T(3.0), T([0.5, -1.0])
+                y = _ScaleByHeld.apply(x * p, {"t": held})
+                return dict(all=[x, held, p], model=[x, p], f=y, trunk=[x, p], losses=[y.sum(), (y * y).sum()])
+            cdt = torch.complex128
+            w = torch.tensor([1.0, -2.0, 0.5], dtype=torch.float64)
+            c = torch.tensor([1.0 + 1.0j, 2.0 - 0.5j, -1.0j], dtype=cdt, requires_grad=True)
+            d = torch.tensor([0.5j, 1.0 + 0.0j, 2.0 - 1.0j], dtype=cdt, requires_grad=True)
+            z = torch.fft.ifft(torch.fft.fft(w) * c) + d
+            return dict(all=[c, d], model=[c, d], f=z, trunk=[c, d], losses=[z.real.pow(2).sum(), z.abs().sum()])
+
+        from torchjd.aggregation import Mean
+
+        for kind in ("ctx-variable", "complex"):
+            for ep in ("bw", "mtl-default-shared"):
+                if kind == "complex" and ep != "bw":
+                    continue  # complex features: real/complex mixes are outside what the library supports today (observed), not asserted
+                A, B = build(kind), build(kind)
+                execs += 2
+                try:
+                    if ep == "bw":
+                        backward(A["losses"], Mean())
+                        backward(B["losses"], Mean(), inputs=B["model"])
+                    else:
+                        mtl_backward(A["losses"], A["f"], Mean(), tasks_params=[[], []])
+                        mtl_backward(B["losses"], B["f"], Mean(), tasks_params=[[], []], shared_params=B["trunk"])
+                except Exception as e:
+                    viol.append(dict(sig=f"exception:special:{type(e).__name__}", msg=f"odd-leaves {kind} {ep}: {e!r}"[:400]))
+                    continue
+                ga, gb = grads(A["all"]), grads(B["all"])
+                outcomes.add(f"ol:{kind}:{ep}:{[g is None for g in ga]}")
+                if not same(ga, gb):
+                    viol.append(dict(sig=f"default-vs-explicit-grads:odd-leaves:{kind}", cls=f"oddleaves:{kind}:{ep}",
+                                     msg=f"{kind}, {ep}: defaulted call leaves .grad {[None if g is None else g.tolist() for g in ga]}, "
                                          f"the call with the explicit leaves {[None if g is None else g.tolist() for g in gb]}"[:900]))
         return dict(viol=viol, execs=execs, outcomes=sorted(outcomes), nontrivial=len(outcomes))
 
